@@ -68,16 +68,16 @@ pub fn property() -> Property {
       Scenario {
         id: 0,
         name: "decisions vs reference evaluator over the generator's AST",
-        quick: 300,
-        thorough: 30_000,
+        quick: 2_000,
+        thorough: 200_000,
         max_len: 400,
         max_threads: 0,
       },
       Scenario {
         id: 1,
         name: "altered, foreign-signed and swapped signed documents",
-        quick: 300,
-        thorough: 30_000,
+        quick: 2_000,
+        thorough: 200_000,
         max_len: 60,
         max_threads: 0,
       },
